@@ -17,6 +17,28 @@ def prepare(case):
     return {"op": case["op"], "in": {"ops": d["ops"], "spec": ops_spec(d["ops"]), "mode": "server-mod", "cfg": {}}}
 
 
+PTYPES = ["string", "string", "integer", "boolean", "number"]
+
+
+def override_cases():
+    """bounded-exhaustive: a path-item parameter overridden by the operation (type x required on both sides, query and
+    header), next to a second operation of the same path item that only inherits it"""
+    out = []
+    for loc, nm in (("query", "revision"), ("header", "X-Rev")):
+        for t0 in ("string", "integer", "boolean"):
+            for t1 in ("string", "integer", "boolean"):
+                for r0 in (False, True):
+                    for r1 in (False, True):
+                        if t0 == t1 and r0 == r1:
+                            continue
+                        base = {"name": nm, "in": loc, "level": "path", "type": t0, "required": r0}
+                        idp = {"name": "id", "in": "path", "level": "path", "type": "integer"}
+                        ops = [{"opid": "putReport", "method": "put", "path": "/reports/{id}", "params": [idp, base, {"name": nm, "in": loc, "level": "op", "type": t1, "required": r1}], "body": None, "responses": [["200", []]]},
+                               {"opid": "getReport", "method": "get", "path": "/reports/{id}", "params": [idp, base], "body": None, "responses": [["200", []]]}]
+                        out.append({"op": "server.op", "in": {"ops": ops}})
+    return out
+
+
 def rand_responses(r):
     keys = r.sample(KEYS7 + ["204", "302", "3XX", "500", "1XX"], r.randint(1, 4))
     return [[k, LAYOUTS[r.choice(["none", "json", "json", "text", "json+text"])] if r.random() < 0.9 else [["application/octet-stream", None]]] for k in keys]
@@ -37,11 +59,14 @@ def rand_case(r, overlap=False):
         params = [{"name": t, "in": "path", "level": r.choice(["op", "path"]), "type": r.choice(["string", "integer"])} for t in tn]
         seenp = set()
         for _ in range(r.randint(0, 3)):
-            nm, loc = r.choice(["q", "limit", "verbose", "X-Trace", "X-Request-Id"]), r.choice(["query", "header"])
+            nm, loc = r.choice(["q", "limit", "verbose", "X-Trace", "X-Request-Id", "sort-Order", "a.b"]), r.choice(["query", "header"])
             lvl = r.choice(["op", "path"])
             if (nm, loc) not in seenp:
                 seenp.add((nm, loc))
-                params.append({"name": nm, "in": loc, "level": lvl, "type": "string", "required": r.random() < 0.3})
+                params.append({"name": nm, "in": loc, "level": lvl, "type": r.choice(PTYPES), "required": r.random() < 0.3})
+                # the operation overrides a parameter of its path item (same name and location, another schema / required flag)
+                if lvl == "path" and r.random() < 0.4:
+                    params.append({"name": nm, "in": loc, "level": "op", "type": r.choice(PTYPES), "required": r.random() < 0.5})
         body = None
         if m in ("post", "put", "patch") and r.random() < 0.6:
             body = {"content": [[r.choice(["application/json", "text/plain", "application/x-www-form-urlencoded", "application/octet-stream"]), r.choice(["ref:Pet", "string"])]], "required": r.random() < 0.5}
@@ -71,6 +96,8 @@ def cases(ctx):
     from checks.c04 import named_codes
     for code in named_codes():
         out.append({"op": "server.op", "in": {"ops": [{"opid": "one", "method": "get", "path": "/x", "params": [], "body": None, "responses": [[code, LAYOUTS["json"]], ["default", LAYOUTS["none"]]]}]}})
+    oc = override_cases()
+    out += oc if not ctx.quick else r.sample(oc, 30)
     for _ in range(250 if ctx.quick else 2500):
         out.append(rand_case(r, overlap=r.random() < 0.1))
     # what the handler is handed for an enum / scalar parameter in every location, under each enum mode: the server's
@@ -103,5 +130,5 @@ def run(ctx):
     return ctx.finish(
         checker_cmd="lake build Oas3Model.Props.C05 && #print axioms on every theorem" + ("" if ctx.quick else " && leanchecker"),
         trusted_base=vlib.TRUSTED_BASE + ["axum/matchit routing semantics (segment-wise match, conflicting patterns rejected) as stated in Model/Server.lean", "axum extractors and Json encoding are not modelled beyond which one is emitted", "syn extraction of router/handlers/IntoResponse"],
-        rule="server-mod generation of specs with 1-5 operations over 9 path templates (several operations per path, overlapping templates, mixed segments), all 8 methods, path/query/header params at both levels, bodies, and response sets over exact/range/default keys x 5 media layouts, every named exact code once; + enum parameters (8 value sets with upper / mixed / lower-case spellings) in header / query / path x 3 enum modes x required/optional through the request-side facts (what the server's FromStr / Deserialize / header lookup hand to the handler); router table, handler signatures and IntoResponse tables parsed with syn, compared with the model and judged; non-trivial = >=1 operation; distinct by input hash",
+        rule="server-mod generation of specs with 1-5 operations over 9 path templates (several operations per path, overlapping templates, mixed segments), all 8 methods, path/query/header params (string/integer/number/boolean) at both levels incl. operation-level overrides of path-item parameters (bounded-exhaustive over type x required on both sides, query and header), every member of the three parameter structs judged against the merged set (key, Option-ness, inner type: locOk), bodies, and response sets over exact/range/default keys x 5 media layouts, every named exact code once; + enum parameters (8 value sets with upper / mixed / lower-case spellings) in header / query / path x 3 enum modes x required/optional through the request-side facts (what the server's FromStr / Deserialize / header lookup hand to the handler); router table, handler signatures and IntoResponse tables parsed with syn, compared with the model and judged; non-trivial = >=1 operation; distinct by input hash",
         assumptions=["trait-method doc lines (`* Path: `METHOD template``) identify the operation a handler belongs to"])
